@@ -151,6 +151,25 @@ func init() {
 		vc.setHeap(st, n, Store(h, r, App(ST.ArrayOf(sortInt, sortInt), "str2arr", cur)))
 		ln := App(sortInt, "strlen", cur)
 		st.strConvs = append(st.strConvs[:len(st.strConvs):len(st.strConvs)], strConv{ref: r, str: cur})
+		// a key of the space the iterator walks is fmt.Sprintf(prefix+"%s", x) for exactly one x, and x is what is
+		// left of the key once the prefix is cut off (stated for this key only)
+		if id, ok := vc.iterPid[it.S]; ok {
+			for prefix, pid := range vc.eng.keyPrefixes {
+				if pid != id {
+					continue
+				}
+				fn, inv := fmt.Sprintf("keyfn_%d", id), fmt.Sprintf("keyinv_%d", id)
+				vc.declareFun(fn, []*Sort{sortStr}, sortStr)
+				vc.declareFun(inv, []*Sort{sortStr}, sortStr)
+				rest := App(sortStr, inv, cur)
+				pl := IntLit(int64(len(prefix)))
+				st.assume(Implies(Eq(App(sortInt, "keyspace", cur), IntLit(int64(id))), And(
+					Eq(App(sortStr, fn, rest), cur),
+					Eq(ln, Bin(sortInt, "+", pl, App(sortInt, "strlen", rest))),
+					Eq(App(sortStr, "bytes2str", App(ST.ArrayOf(sortInt, sortInt), "str2arr", cur), pl, Bin(sortInt, "-", ln, pl)), rest))))
+				vc.note("a key with the prefix %q is that prefix followed by the formatted argument (fmt.Sprintf with a single %%s)", prefix)
+			}
+		}
 		return mkSlice(r, IntLit(0), ln, ln)
 	}
 	kvModels[lib+".Item).Value"] = kvItemValue
@@ -247,6 +266,8 @@ func kvItemValue(vc *VC, st *State, c *ssa.CallCommon, args []Value, pos string)
 		old = ST.Zero(s)
 	}
 	err := vc.maybeExtError(st, "r_Value_err")
+	// badger returns ErrKeyNotFound from Txn.Get only (v2.0.3: txn.go, merge.go); reading or decoding a value fails otherwise
+	st.assume(Not(Eq(err, vc.badgerErr(st, "ErrKeyNotFound"))))
 	okT := Eq(ifaceTag(err), IntLit(0))
 	garbage := vc.fresh("partial", s)
 	vc.typeFacts(st, garbage, et)
